@@ -10,7 +10,7 @@ import warnings
 import numpy as np
 
 from .. import check as CK
-from .. import gen, monitor, pool, tlc
+from .. import gen, monitor, pool, rel, tlc
 from . import solverprops
 
 FRACS = [1.3, 0.5, 0.2, 0.08, 0.03]          # index 0: above the critical strength (null model)
@@ -42,7 +42,7 @@ def run_history(h, seed, hid):
     X = gen.design(rng, n, p, rho=0.7)
     sparse_x = bool(rng.integers(2)) and entry not in ("SqrtLasso.path", "GroupLasso.refit")
     clf = entry.startswith(("SparseLogistic", "ProxNewton", "LinearSVC"))
-    if entry == "MultiTaskBCD.path":
+    if entry.startswith(("MultiTaskBCD", "MultiTaskLasso")):
         y = gen.target(rng, X, "reg", n_tasks=2, offset=1.0 if fi else 0.0)
         amax = float(np.max(np.linalg.norm(X.T @ (y - y.mean(0) * fi), axis=1))) / n
     elif clf:
@@ -60,15 +60,22 @@ def run_history(h, seed, hid):
     auto = TR.AutoTracer(meta=meta).install()
     tol = 1e-6
     exc = None
+    ret = None
     try:
         with warnings.catch_warnings():
             warnings.simplefilter("ignore")
-            _execute(h, entry, fi, X, Xs, y, grid, rng, tol, skl, n, p)
+            ret = _execute(h, entry, fi, X, Xs, y, grid, rng, tol, skl, n, p)
     except Exception as e:  # noqa: BLE001
         exc = type(e).__name__ + ": " + str(e)[:200]
+        import traceback
+        last = traceback.extract_tb(e.__traceback__)[-1]
+        if "/harness/" in last.filename:          # raised by the driver itself, not by the library: a harness bug
+            exc = "HARNESS-BUG " + exc + f" at {last.filename}:{last.lineno}"
     finally:
         auto.remove()
     out = []
+    if exc is None and entry.endswith(".path") and ret is not None:
+        out.append(_path_facts(ret, auto, entry, fi, hid, meta, tol))
     for k, t in enumerate(auto.traces):
         t["id"] = hid * 100 + k + 1
         t["meta"]["driver_exc"] = exc
@@ -81,10 +88,49 @@ def run_history(h, seed, hid):
     return out
 
 
+
+def _path_facts(ret, auto, entry, fi, hid, meta, tol):
+    """What path() RETURNS: the grid it was given, and for every grid point the coefficients and the stopping value of
+    the solve made for that point (C05 observes `path() return (alphas, coefs, stop_crits)`); each returned column is
+    also judged directly against the problem of its alpha by the oracle."""
+    from ..oracle import problem as PB
+    (res, g) = ret
+    f = rel.Facts(hid * 100 + 99, dict(meta, kind="path_return"))
+    alphas, coefs = np.asarray(res[0], dtype=float), np.asarray(res[1], dtype=float)
+    crits = np.asarray(res[2], dtype=float) if len(res) > 2 else None
+    if entry == "SqrtLasso.path":
+        # documented: the grid is sorted in decreasing order and coefs has shape (n_alphas, n_features)
+        g = np.sort(np.asarray(g, dtype=float))[::-1]
+        coefs = coefs.T
+    f.flag("path_alphas", alphas.shape == np.shape(g) and bool(np.all(alphas == np.asarray(g, dtype=float))))
+    f.flag("path_len", coefs.shape[-1] == len(g) == len(auto.solves))
+    if coefs.shape[-1] == len(auto.solves):
+        for t, sv in enumerate(auto.solves):
+            col = coefs[..., t]
+            w = sv["w"]
+            if w is not None and np.ndim(w) == 2 and np.shape(w) != col.shape and np.shape(w) == col.T.shape:
+                col = col.T                    # multitask paths return (n_tasks, n_features, n_alphas)
+            if w is not None and np.shape(w) == col.shape:
+                f.le("path_coefs_are_the_step_solutions", float(np.max(np.abs(col - np.asarray(w)))) if col.size else 0.0,
+                     0.0)
+            else:
+                f.flag("path_coefs_are_the_step_solutions", False, when=w is not None)
+            if crits is not None and t < len(crits):
+                stopped = crits[t] <= sv["tol"]
+                try:
+                    v = PB.violation(sv["prob"], col, sv["strategy"], sv["family"])[0]
+                    sc = PB.null_scale(sv["prob"])
+                    f.le("path_cert", v, PB.vbound(sv["tol"], sc), when=bool(stopped))
+                except Exception as e:  # noqa: BLE001
+                    f.meta["oracle_exc"] = type(e).__name__ + str(e)[:80]
+    return dict(_facts=f.trace())
+
+
 def _execute(h, entry, fi, X, Xs, y, grid, rng, tol, skl, n, p):
     import skglm
     from skglm.utils.data import grp_converter
     hist = h["hist"]
+    clf = entry.startswith(("SparseLogistic", "ProxNewton", "LinearSVC"))
     if entry in ("AndersonCD.solve", "ProxNewton.solve", "GroupBCD.solve"):
         if entry == "AndersonCD.solve":
             wts = np.ones(p)
@@ -127,20 +173,23 @@ def _execute(h, entry, fi, X, Xs, y, grid, rng, tol, skl, n, p):
         elif op["order"] == "shuffled":
             g = list(rng.permutation(g))
         g = np.array(g)
-        T = 2 if entry == "MultiTaskBCD.path" else None
+        T = 2 if entry in ("MultiTaskBCD.path", "MultiTaskLasso.path") else None
         init = None if op["init"] == "none" else _shape(rng, op["init"], p, fi, T)
         if entry == "AndersonCD.path":
             pen = skl.penalty({"kind": "L1", "alpha": g[0], "positive": False})
             df = skl.datafit({"kind": "Quadratic"})
-            skl.solver("AndersonCD", fit_intercept=fi, tol=tol, p0=2).path(Xs, y, df, pen, g, init)
+            return skl.solver("AndersonCD", fit_intercept=fi, tol=tol, p0=2).path(Xs, y, df, pen, g, init), g
         elif entry == "MultiTaskBCD.path":
             pen = skl.penalty({"kind": "L2_1", "alpha": g[0]})
             df = skl.datafit({"kind": "QuadraticMultiTask"})
             Winit = None if init is None else np.ascontiguousarray(init.T)
-            skl.solver("MultiTaskBCD", fit_intercept=fi, tol=tol, p0=2).path(Xs, y, df, pen, g, Winit)
+            return skl.solver("MultiTaskBCD", fit_intercept=fi, tol=tol, p0=2).path(Xs, y, df, pen, g, Winit), g
+        elif entry == "MultiTaskLasso.path":
+            Winit = None if init is None else np.ascontiguousarray(init.T)
+            return skglm.MultiTaskLasso(alpha=g[0], fit_intercept=fi, tol=tol, p0=2).path(Xs, y, g, coef_init=Winit), g
         elif entry == "SqrtLasso.path":
             from skglm.experimental.sqrt_lasso import SqrtLasso
-            SqrtLasso(alpha=g[0], tol=tol).path(X, y, alphas=g)
+            return SqrtLasso(alpha=g[0], tol=tol).path(X, y, alphas=g), g
         else:
             cls = entry.split(".")[0]
             kw = dict(alpha=g[0], fit_intercept=fi, tol=tol, p0=2)
@@ -149,7 +198,7 @@ def _execute(h, entry, fi, X, Xs, y, grid, rng, tol, skl, n, p):
                 wts[rng.choice(p, 4, replace=False)] = 0.0
                 kw["weights"] = wts
             est = getattr(skglm, cls)(**kw)
-            est.path(Xs, y, g, coef_init=init)
+            return est.path(Xs, y, g, coef_init=init), g
         return
     # warm_start refits
     cls = entry.split(".")[0]
@@ -170,7 +219,7 @@ def _execute(h, entry, fi, X, Xs, y, grid, rng, tol, skl, n, p):
             if clf or cls == "LinearSVC":
                 ycur = -np.asarray(ycur) if int(rng.integers(2)) else np.where(rng.random(len(y)) < 0.3, -np.asarray(y), y)
             else:
-                ycur = np.asarray(y) * -0.5 + rng.standard_normal(len(y)) * 0.1
+                ycur = np.asarray(y) * -0.5 + rng.standard_normal(np.shape(y)) * 0.1
         if c == "new_rows" and cls == "LinearSVC":
             ycur = -np.asarray(ycur)          # the dual variables index samples: keep n, change the labels
         elif c == "new_rows":
@@ -220,6 +269,10 @@ SENTINEL_HISTORIES = [
     _hh("Lasso.path", True, dict(op="path", order="shuffled", init="zero", n=4)),
     _hh("WeightedLasso.path", False, dict(op="path", order="dec", init="random", n=3)),
     _hh("MultiTaskBCD.path", True, dict(op="path", order="dec", init="none", n=3)),
+    _hh("MultiTaskLasso.path", True, dict(op="path", order="dec", init="none", n=5)),
+    _hh("MultiTaskLasso.path", False, dict(op="path", order="shuffled", init="random", n=4)),
+    _hh("MultiTaskLasso.refit", True, _fit("same"), _fit("alpha_to_null"), _fit("alpha_down")),
+    _hh("MultiTaskLasso.refit", True, _fit("same"), _fit("new_labels"), _fit("toggle_intercept")),
     _hh("AndersonCD.solve", False, dict(op="solve", a=2, warm="bigsupp"), dict(op="solve", a=3, warm="reuse"),
         dict(op="solve", a=1, warm="reuse")),
     _hh("AndersonCD.solve", True, dict(op="solve", a=1, warm="intercept_only"), dict(op="solve", a=4, warm="reuse")),
@@ -266,7 +319,8 @@ def run(prop, tier, seed):
                                  key=lambda it: it[0]["entry"], chunk=6)
     for it, msg, tb in errs:
         ck.machinery(f"history driver failed on {it[0] if it else None}: {msg}\n{tb}")
-    traces = [t for r_ in res for t in r_]
+    pfacts = [t["_facts"] for r_ in res for t in r_ if "_facts" in t]
+    traces = [t for r_ in res for t in r_ if "_facts" not in t]
     sitems = []
     tid = 10 ** 7
     for sc in scs:
@@ -299,6 +353,8 @@ def run(prop, tier, seed):
         raised = last["e"] == "raise"
         if meta.get("driver_exc"):
             nexc += 1
+            if str(meta["driver_exc"]).startswith("HARNESS-BUG"):
+                ck.machinery(f"history driver bug on {meta.get('entry')} {meta.get('hist')}: {meta['driver_exc']}")
         stopped = (not raised) and last["crit"] <= tr["tol"]
         inplace = (not raised) and last.get("same_buf") == 1
         sig = json.dumps({k: meta.get(k) for k in ("entry", "hist", "fit_intercept", "storage", "step",
@@ -323,15 +379,43 @@ def run(prop, tier, seed):
         if len(ck.cov["samples"]) < 5 and (stopped or inplace):
             ck.sample(dict(meta={k: meta[k] for k in meta if k != "exc"}, n_events=len(tr["events"]),
                            verdict=bad, last_event=solverprops._short(last)))
+    if pfacts:
+        try:
+            vp = rel.judge(pfacts)
+        except tlc.TLCError as e:
+            ck.machinery(str(e)[:2000])
+            return ck.finish()
+        ck.add_verdicts(vp)
+        for t in pfacts:
+            names = {c for c, _ in vp.bad(t["id"])}
+            meta = t["meta"]
+            ck.cov["traces_validated_against_impl"] += 1
+            for e in t["events"]:
+                if e["when"]:
+                    ck.clause(e["c"], e["c"] not in names)
+            for c in sorted(names):
+                ck.violation(c, dict({k: meta.get(k) for k in ("entry", "fit_intercept", "storage", "hid", "seed")},
+                                     clause=c, hist=meta.get("hist")),
+                             dict(kind="warm_history", replay_module="harness.checks.warm", property=prop, clause=c,
+                                  history=dict(entry=meta.get("entry"), fit_intercept=meta.get("fit_intercept"),
+                                               hist=meta.get("hist")), scenario=None, seed=meta.get("seed", seed),
+                                  hid=meta.get("hid"), step=None, event=None))
     ck.cov["notes"].append(f"{nexc} traces belong to histories whose driver raised (API refusals are C13's business)")
     return ck.finish()
 
 
 def replay(rp):
     if rp.get("history"):
-        traces = run_history(rp["history"], rp["seed"], rp["hid"] or 1)
+        allout = run_history(rp["history"], rp["seed"], rp["hid"] or 1)
+        traces = [t for t in allout if "_facts" not in t]
         v = monitor.validate(traces)
         hit = False
+        for t in allout:
+            if "_facts" in t:
+                vp = rel.judge([t["_facts"]])
+                b = vp.bad(t["_facts"]["id"])
+                print("path return verdict", b)
+                hit = hit or any(c == rp["clause"] for c, _ in b)
         for t in traces:
             b = v.bad(t["id"])
             print("step", t["meta"].get("step"), "alpha", t["meta"].get("alpha"), "verdict", b)
